@@ -33,9 +33,9 @@ type Spec struct {
 	Expect string `json:"expect"`
 	User   string `json:"user,omitempty"` // operator whose credentials the message was derived from
 	// broadcasts fired before the first message / between first read and verdict / after the verdict
-	PreK  string   `json:"prek,omitempty"`
-	WinK  string   `json:"wink,omitempty"`
-	PostK string   `json:"postk,omitempty"`
+	PreK   string   `json:"prek,omitempty"`
+	WinK   string   `json:"wink,omitempty"`
+	PostK  string   `json:"postk,omitempty"`
 	Follow []string `json:"follow,omitempty"` // messages sent on the socket after the verdict
 	Seed   int64    `json:"seed"`
 }
@@ -106,8 +106,8 @@ type jfield struct {
 	v *jnode
 }
 
-func jstr(s string) *jnode   { return &jnode{str: &s} }
-func jraw(s string) *jnode   { return &jnode{raw: s} }
+func jstr(s string) *jnode    { return &jnode{str: &s} }
+func jraw(s string) *jnode    { return &jnode{raw: s} }
 func jobj(f ...jfield) *jnode { return &jnode{fields: f, isObj: true} }
 
 func jsonString(s string) string {
